@@ -186,3 +186,6 @@ def check(ctx):
     shared.drops_do_not_block_unmasked(ctx)
     shared.cancel_registered_before_publish(ctx, only=r"may::park::|may::sleep::|may::sync::fast_blocking::")
     shared.no_blocking_landing_pad(ctx)
+    # dependency (seed C09-10): a coroutine that is not cancelled never observes a cancellation - every injected result is consumed by the wait it
+    # was injected into (rules owned by C15)
+    ctx.import_rules("C15", r"^consume-after:")
